@@ -43,7 +43,7 @@ pub fn run_children(args: &Args, rep: &mut Report) -> bool {
     let exe = std::env::current_exe().unwrap();
     let mut children = vec![];
     for i in 0..n {
-        let out = format!("{}/jbkmc-shard-{}-{}.json", if std::path::Path::new("/dev/shm").is_dir() { "/dev/shm" } else { "/var/tmp" }, std::process::id(), i);
+        let out = format!("{}/jbkmc-shard-{}-{}.json", crate::scratch_base(), std::process::id(), i);
         let lo = (i * per) % ncpu;
         let hi = (lo + per - 1).min(ncpu - 1);
         let mut cmd = Command::new("taskset");
